@@ -1,50 +1,87 @@
 #!/usr/bin/env python3
-"""Evaluate seeded changes: verify each (builds, suite passes, demo fails with / passes without) in a scratch
-worktree of /repo and run the named checks against that worktree (VERIF_REPO), never touching /repo.
-usage: sweep.py <spec.json> <out.json>    spec: [{"id":"C01","n":1,"checks":["C01","C02"]}, ...]
-Run from a checkout of /verif (cwd)."""
+"""Evaluate the seeded changes kept under seeded/<id>/ (patch.diff, demo_test.go, meta.json).
+
+For each: fresh scratch worktree of /repo HEAD under /tmp, apply patch.diff, verify it (go build, the whole
+test suite passes with it, demo_test.go fails with it and passes without it), then run the quick checks named
+in meta.json ("checks") against that worktree (VERIF_REPO) -- /repo itself is never touched -- and record
+the outcome in seeded/RESULTS.json. The worktree is removed afterwards.
+
+usage: tools/sweep.py [--no-verify] [--checks C01,C02] [id ...]      (cwd = a checkout of /verif)
+"""
 import json, os, re, subprocess, sys, time, shutil
-spec = json.load(open(sys.argv[1])); outp = sys.argv[2]
+args = sys.argv[1:]
+verify = True
+only_checks = None
+ids = []
+while args:
+    a = args.pop(0)
+    if a == '--no-verify':
+        verify = False
+    elif a == '--checks':
+        only_checks = args.pop(0).split(',')
+    else:
+        ids.append(a)
 here = os.getcwd()
+sd = os.path.join(here, 'seeded')
+if not ids:
+    ids = sorted(d for d in os.listdir(sd) if os.path.isdir(os.path.join(sd, d)))
+outp = os.path.join(sd, 'RESULTS.json')
+res = json.load(open(outp)) if os.path.exists(outp) else {}
 env = dict(os.environ, VERIF_ROOT=here)
-res = []
-def sh(cmd, cwd=None, env=None, timeout=3600):
+
+
+def sh(cmd, cwd=None, env=None, timeout=7200):
     p = subprocess.run(cmd, shell=True, cwd=cwd, env=env, stdout=subprocess.PIPE, stderr=subprocess.STDOUT, timeout=timeout)
     return p.returncode, p.stdout.decode(errors='replace')
-for m in spec:
-    mid, n = m['id'], m['n']
-    patch = m.get('patch', f'/tmp/mut/{mid}.patch{n}.diff'); demo = m.get('demo', f'/tmp/mut/{mid}.demo{n}_test.go')
-    wt = f'/tmp/mut/V_{mid}_{n}'
-    r = {'id': mid, 'n': n, 'checks': {}}
-    sh(f'git -C /repo worktree remove --force {wt}'); shutil.rmtree(wt, ignore_errors=True)
+
+
+for mid in ids:
+    d = os.path.join(sd, mid)
+    meta = json.load(open(os.path.join(d, 'meta.json')))
+    patch, demo = os.path.join(d, 'patch.diff'), os.path.join(d, 'demo_test.go')
+    wt = f'/tmp/seeded_{mid}'
+    r = res.get(mid, {})
+    r.setdefault('checks', {})
+    sh(f'git -C /repo worktree remove --force {wt}'); shutil.rmtree(wt, ignore_errors=True); sh('git -C /repo worktree prune')
     rc, o = sh(f'git -C /repo worktree add --detach {wt} HEAD')
     rc, o = sh(f'git -C {wt} apply {patch}')
     r['applies'] = rc == 0
+    r['repo_head'] = sh('git -C /repo rev-parse --short HEAD')[1].strip()
     if rc != 0:
-        r['error'] = o[-400:]; res.append(r); json.dump(res, open(outp, 'w'), indent=1); continue
-    if not m.get('skip_verify'):
+        r['error'] = o[-400:]
+        res[mid] = r
+        json.dump(res, open(outp, 'w'), indent=1, sort_keys=True)
+        sh(f'git -C /repo worktree remove --force {wt}')
+        continue
+    if verify:
         rc, o = sh('go build ./... && go test -vet=off -count=1 ./...', cwd=wt)
         r['suite_passes_with_patch'] = rc == 0
         src = open(demo).read()
         pkg = re.search(r'^package (\w+)', src, re.M).group(1)
-        d = {'consensus': 'consensus', 'types': 'types', 'gateway': 'gateway', 'rhp': None}.get(pkg)
-        if d is None:
-            mm = re.search(r'rhp/v[234]', src); d = mm.group(0) if mm else 'rhp/v4'
+        dd = {'consensus': 'consensus', 'types': 'types', 'gateway': 'gateway'}.get(pkg)
+        if dd is None:
+            mm = re.search(r'rhp/v[234]', src)
+            dd = meta.get('demo_dir') or (mm.group(0) if mm else 'rhp/v4')
+        dd = meta.get('demo_dir', dd)
         mm = re.search(r'func (Test\w+)\(', src)
-        shutil.copy(demo, f'{wt}/{d}/zz_demo_{n}_test.go')
-        rc, o = sh(f'go test -vet=off -count=1 -run "^{mm.group(1)}" ./{d}/', cwd=wt)
+        tgt = f'{wt}/{dd}/zz_seeded_demo_test.go'
+        shutil.copy(demo, tgt)
+        rc, o = sh(f'go test -vet=off -count=1 -run "^{mm.group(1)}$" ./{dd}/', cwd=wt)
         r['demo_fails_with_patch'] = rc != 0
         sh(f'git -C {wt} apply -R {patch}')
-        rc, o = sh(f'go test -vet=off -count=1 -run "^{mm.group(1)}" ./{d}/', cwd=wt)
+        rc, o = sh(f'go test -vet=off -count=1 -run "^{mm.group(1)}$" ./{dd}/', cwd=wt)
         r['demo_passes_without_patch'] = rc == 0
-        os.remove(f'{wt}/{d}/zz_demo_{n}_test.go')
+        os.remove(tgt)
         sh(f'git -C {wt} apply {patch}')
-    for c in m['checks']:
+    for c in (only_checks or meta['checks']):
         t0 = time.time()
-        rc, o = sh(f'./check {c} quick', cwd=here, env=dict(env, VERIF_REPO=wt, VERIF_SEED=str(m.get('seed', 1))))
+        rc, o = sh(f'./check {c} quick', cwd=here, env=dict(env, VERIF_REPO=wt, VERIF_SEED=str(meta.get('seed', 1))))
         v = [l for l in o.splitlines() if l.startswith('VIOLATION') or l.startswith('  C')]
-        r['checks'][c] = {'exit': rc, 'violation': ' | '.join(v)[:600], 'wall': round(time.time() - t0, 1), 'tail': o[-300:] if rc == 2 else ''}
-        print(mid, n, c, rc, ' | '.join(v)[:300], flush=True)
+        r['checks'][c] = {'exit': rc, 'caught': rc == 1, 'violation': ' | '.join(v)[:500], 'wall_s': round(time.time() - t0, 1)}
+        if rc == 2:
+            r['checks'][c]['tail'] = o[-300:]
+        print(mid, c, rc, ' | '.join(v)[:260], flush=True)
     sh(f'git -C /repo worktree remove --force {wt}'); shutil.rmtree(wt, ignore_errors=True)
-    res.append(r); json.dump(res, open(outp, 'w'), indent=1)
+    res[mid] = r
+    json.dump(res, open(outp, 'w'), indent=1, sort_keys=True)
 print('done')
